@@ -566,7 +566,9 @@ fn perform_rename(from: &Path, to: &Path, _is_dir: bool, state: &mut ApplyState)
 
 /// Rollback all applied changes
 fn rollback(state: &mut ApplyState) -> Result<()> {
-    state.log("Starting rollback due to error")?;
+    // Rollback goes ahead whether or not it can be logged: the reason for it may be the log itself
+    // (a full disk), and giving up here would leave the renames done so far in place
+    let _ = state.log("Starting rollback due to error");
 
     let mut errors = Vec::new();
 
@@ -574,11 +576,11 @@ fn rollback(state: &mut ApplyState) -> Result<()> {
     // (a rename inside an already renamed directory has to be undone at its adjusted location)
     let renames_to_revert: Vec<_> = state.renames_executed.iter().rev().cloned().collect();
     for (from, to) in renames_to_revert {
-        state.log(&format!(
+        let _ = state.log(&format!(
             "Reverting rename: {} -> {}",
             to.display(),
             from.display()
-        ))?;
+        ));
         if let Err(e) = fs::rename(&to, &from) {
             errors.push(format!(
                 "Failed to revert rename {} -> {}: {}",
@@ -775,27 +777,28 @@ pub fn apply_plan(plan: &mut Plan, options: &ApplyOptions) -> Result<()> {
             if let Ok(relative) = rename.path.strip_prefix(prev_from) {
                 // This rename's source is inside a directory that was already renamed
                 adjusted_from = prev_to.join(relative);
-                state.log(&format!(
+                // (a failing log write must not end the rename stage half-way without rollback)
+                let _ = state.log(&format!(
                     "Adjusted rename source: {} -> {} (due to parent directory rename)",
                     rename.path.display(),
                     adjusted_from.display()
-                ))?;
+                ));
             }
 
             // Check if the destination path needs adjustment
             if let Ok(relative) = rename.new_path.strip_prefix(prev_from) {
                 // This rename's destination is inside a directory that was already renamed
                 adjusted_to = prev_to.join(relative);
-                state.log(&format!(
+                let _ = state.log(&format!(
                     "Adjusted rename destination: {} -> {} (due to parent directory rename)",
                     rename.new_path.display(),
                     adjusted_to.display()
-                ))?;
+                ));
             }
         }
 
         if let Err(e) = perform_rename(&adjusted_from, &adjusted_to, is_dir, &mut state) {
-            state.log(&format!("Error performing rename: {}", e))?;
+            let _ = state.log(&format!("Error performing rename: {}", e));
 
             rollback(&mut state)?;
 
